@@ -80,12 +80,35 @@ def run(res, replay=None):
     specs = [replay['replay']['spec']] if replay else \
         [gen.rand_spec(rng, n_total=rng.choice([2, 3, 3, 4] if res.tier == 'quick' else [3, 4, 4, 5]),
                        n_demes=rng.choice([1, 1, 2]), n_epochs=rng.choice([1, 2, 3])) for _ in range(nspec)]
-    items = [dict(spec=s, lc=False, ops=build_ops(rng, s)) for s in specs]
+    for j, s in enumerate(specs):
+        if j % 3 == 1 and not replay:
+            s['start_time'] = 0.25
+            s['end_time'] = (s.get('end_time') or 2.0) + 0.5
+    # a start time is only claimed for FIRST moments (second moments are not additive over windows): with a start
+    # time only the mean spectra are compared
+    items = [dict(spec=s, lc=False, ops=[o for o in build_ops(rng, s)
+                                          if not s.get('start_time') or o['py'].get('path') in ('sfs.mean', 'fsfs.mean')])
+             for s in specs]
+    # SFS accumulation curves on several points at once (points inside epochs, on boundaries, beyond the last change)
+    for s in specs[: (3 if res.tier == 'quick' else 15)]:
+        if s.get('start_time'):
+            continue
+        n = gen.effective_n(s)
+        bs = sorted({float(t) for d in s['pop_sizes'].values() for t in d})
+        ts = sorted({0.3125, 1.0, 2.75} | set(bs[1:2]))
+        rng.shuffle(ts)
+        items.append(dict(spec=s, lc=False, ops=[dict(
+            py={'kind': 'accumulate', 'dist': 'sfs', 'k': 1, 'ts': ts, 'center': False},
+            queries=[dict(kind='accumulate', k=1, rewards=[sfs_r(i)], center=False, ts=ts) for i in range(1, n)],
+            combine=lambda mq, n_=n, nt=len(ts): [[0.0] * nt] + [list(x) for x in mq] + [[0.0] * nt] * (n_ - len(mq)),
+            uses_horizon=False)]))
     results = N.run_items(res, 'C02', 'sfs', items, what='SFS moment differs from the branch-length moment of the labelled coalescent (model value)')
     # layout oracle on the implementation
     for it, r, mvals in results:
         n = gen.effective_n(it['spec'])
         mean = r['values'][0]
+        if it['ops'][0]['py'].get('path') != 'sfs.mean':
+            continue
         if mean is not None and (len(mean) != n + 1 or mean[0] != 0 or mean[n] != 0):
             res.violation('SFS is not padded with zeros at 0 and n', {'spec': it['spec'], 'mean': mean})
     res.extra['input_distribution'] = {
